@@ -1,9 +1,62 @@
 import PyamgV.Driver.Util
-/-! Driver ops of extension task E7 (op names prefixed `ext_`). -/
+import PyamgV.Driver.C17
+import PyamgV.Model.ExtC17Ck
+import PyamgV.Model.ExtC17CkBlock
+import PyamgV.Model.ExtC17CkInterp
+import PyamgV.Model.ExtC17CkTrunc
+/-! Driver ops of extension task E7 (property C17; op names prefixed `ext_c17_`): the checked (`Ck`)
+models of `Model/ExtC17Ck*.lean`, same output conventions as `Driver/C17.lean` (values, then
+`;ok` / `;fault`; `nonterm` when an outer strided loop runs out of fuel). -/
 namespace PyamgV.Drv.ExtE7
-open PyamgV PyamgV.Drv
+open PyamgV PyamgV.Drv PyamgV.Ck PyamgV.Drv.C17
+
+def ltR (a b : Rat) : Bool := decide (a < b)
+/-- IEEE doubles (bit-exact comparison with the kernel for the interpolation weights, whose divisions are not dyadic) -/
+def kOpsF : C17.KOps Float :=
+  ⟨(· * ·), (· + ·), (· - ·), (· / ·), 0.0, 1.0, fun q => q == 0.0, Float.abs, fun a b => if a < b then b else a, 0.0, id⟩
+/-- `eps` is the double `1e-15` of the C++ source (sent by the harness as a bit pattern) -/
+def iOpsF (eps : Float) : C17.IOps Float :=
+  ⟨fun a => -a, fun a => a < 0.0, fun a b => Float.abs a > eps * Float.abs b⟩
+def showFloats (a : Array Float) : String := sh (a.toList.map (fun x => if x.isNaN then "nan" else toString x.toBits.toNat))
+def mkGF (n ap aj ax : String) : Ck.Csr Float := ⟨nat n, parseInts ap, parseInts aj, parseFloats ax⟩
+def outPJX (r : Ck (C17.PJX Float)) : String := showInts r.val.1 ++ ";" ++ showFloats r.val.2 ++ flag r.ok
+def out1 {σ : Type} (r : Option (Ck σ)) (f : σ → String) : String :=
+  match r with
+  | none => "nonterm"
+  | some r => f r.val ++ flag r.ok
 
 def handle : List String → Option String
+  | ["ext_c17_filter_matrix_rows", th, lump, n, ap, aj, ax] =>
+    some <| outR (C17.filterRows kOps ltR (parseRat th) (lump == "1") (mkG n ap aj ax))
+  | ["ext_c17_remove_strong_FF_connections", n, sp, sj, sx, split] =>
+    some <| outR (C17.removeFF kOps (mkG n sp sj sx) (parseInts split))
+  | ["ext_c17_incomplete_mat_mult_csr", na, ap, aj, ax, nb, bp, bj, bx, ns, sp, sj, sx] =>
+    some <| outR (C17.incompleteMatMult kOps (mkG na ap aj ax) (mkG nb bp bj bx) (mkG ns sp sj sx))
+  | ["ext_c17_bsr_gauss_seidel", bs, n, ap, aj, ax, b, x, s0, s1, s2] =>
+    let G := mkG n ap aj ax
+    some <| out1 (C17.bsrGaussSeidel kOps G (parseRats b) (nat bs) (int s0) (int s1) (int s2) (G.n + 1) (parseRats x))
+      (fun st => showRats st.1)
+  | ["ext_c17_bsr_jacobi", om, bs, n, ap, aj, ax, b, x, temp, s0, s1, s2] =>
+    let G := mkG n ap aj ax
+    some <| out1 (C17.bsrJacobi kOps (parseRats om) G (parseRats b) (nat bs) (int s0) (int s1) (int s2) (G.n + 1)
+      (parseRats x) (parseRats temp)) (fun st => showRats st.1 ++ ";" ++ showRats st.2.1)
+  | ["ext_c17_block_jacobi", om, bs, n, ap, aj, ax, b, dinv, x, temp, s0, s1, s2] =>
+    let G := mkG n ap aj ax
+    some <| out1 (C17.blockJacobi kOps (parseRats om) G (parseRats b) (parseRats dinv) (nat bs) (int s0) (int s1) (int s2)
+      (G.n + 1) (parseRats x) (parseRats temp)) (fun st => showRats st.1 ++ ";" ++ showRats st.2.1)
+  | ["ext_c17_block_gauss_seidel", bs, n, ap, aj, ax, b, dinv, x, s0, s1, s2] =>
+    let G := mkG n ap aj ax
+    some <| out1 (C17.blockGaussSeidel kOps G (parseRats b) (parseRats dinv) (nat bs) (int s0) (int s1) (int s2) (G.n + 1)
+      (parseRats x)) (fun st => showRats st.1)
+  | ["ext_c17_rs_direct_interpolation_pass2", n, ap, aj, ax, sp, sj, sx, split, pp, pj, px] =>
+    some <| outPJX (C17.directPass2 kOpsF (iOpsF 0.0) (mkGF n ap aj ax) (mkGF n sp sj sx) (parseInts split) (parseInts pp)
+      (parseInts pj) (parseFloats px))
+  | ["ext_c17_rs_classical_interpolation_pass2", md, eps, n, ap, aj, ax, sp, sj, sx, split, pp, pj, px] =>
+    some <| outPJX (C17.classicalPass2 kOpsF (iOpsF ((parseFloats eps).getD 0 0.0)) (md == "1") (mkGF n ap aj ax) (mkGF n sp sj sx)
+      (parseInts split) (parseInts pp) (parseInts pj) (parseFloats px))
+  | ["ext_c17_truncate_rows_csr", k, n, sp, sj, sx] =>
+    let r := C17.truncateRows kOps ltR (int k) (mkG n sp sj sx)
+    some <| showInts r.val.2 ++ ";" ++ showRats r.val.1 ++ flag r.ok
   | _ => none
 
 end PyamgV.Drv.ExtE7
